@@ -40,6 +40,9 @@ CHECKS = {
  "C18": ("other", "structural obligations (dominators, guard conditions) on object_pool.c/token.c and a counter abstraction (set-of-counts dataflow) over main's CFG",
          "Decides the implementation-side structure of the protocol: slab arithmetic consistent, bump gated by next<last and refill at next==last, slab aliases reset after drain, shared pool drained/freed only at use count 0, init idempotent, and the CLI never allocates tokens outside an init..drain bracket and frees at count 0. Behaviour of arbitrary client call histories is not decided.",
          "§3 C18"),
+ "C16": ("other", "constant-table inspection (smart_char_type initialiser from the AST), cast check on every table lookup, whole-program absence of setlocale, interval analysis of the tolower argument in label_from_string",
+         "Decides two necessary conditions only (explicitly weak): the byte classifier is neutral on every byte >= 0x80 and is always indexed as unsigned char; ctype functions run only in the C locale (no setlocale anywhere) and label_from_string case-maps only ASCII while copying lead+continuation bytes unclassified. The re2c scanners' treatment of 0xA0 and truncations at length limits are not decided.",
+         "§3 C16"),
  "C17": ("other", "same inventory on the -DDISABLE_OBJECT_POOL configuration with an empty allow list",
          "Decides the 'no shared mutable state' clause for the pool-disabled build; does not decide byte equality across threads.",
          "§3 C17"),
